@@ -231,3 +231,60 @@ func init() {
 		Outside:     "ranks 5-6 (rank 4 only with sizes <= 2), sizes above 3",
 	})
 }
+
+func c02Unary(lo, hi int, maxdim int64) []Item { return unaryItems(lo, hi, maxdim) }
+
+func init() {
+	binOps := []string{"Add", "Sub", "Mul", "Div", "ElMax", "ElMin"}
+	allChecks = append(allChecks, &Check{
+		ID: "C02", Level: "model_checking",
+		Harnesses: []Harness{
+			{Name: "C02_unary", Pkg: "zzh", Func: "H_C02_unary", Reach: []string{"done"},
+				What:  "Scale/Pow/Exp/Log/Sin/Cos/Tan/Sinh/Cosh/Tanh: gradient = upstream * derivative (Pow: symbolic exponent with base>0; exponents -2,-1,0,1/2,1,2,3 with base 0 included for 0,1,2,3)",
+				Items: tiered(func() []Item { return c02Unary(0, 2, 2) }, func() []Item { return mergeItems(c02Unary(0, 3, 3), c02Unary(4, 4, 2)) })},
+			{Name: "C02_binary", Pkg: "zzh", Func: "H_C02_binary", Reach: []string{"done"},
+				What:  "Add/Sub/Mul/Div/ElMax/ElMin on same-shape operands, every tracked subset",
+				Items: tiered(func() []Item { return sItems("op", binOps, rankItems(0, 2, 2, nil)) }, func() []Item { return sItems("op", binOps, mergeItems(rankItems(0, 3, 3, nil), rankItems(4, 4, 2, nil))) })},
+			{Name: "C02_shape", Pkg: "zzh", Func: "H_C02_shape", Reach: []string{"done"},
+				What: "Transpose/Reshape/UnSqueeze/Squeeze/Flatten: gradient is the inverse element permutation of the upstream",
+				Items: func(tier string) []Item {
+					hi, d := 3, int64(2)
+					if tier == "thorough" {
+						hi, d = 4, 3
+					}
+					return mergeItems(
+						sItems("op", []string{"Transpose"}, rankItems(2, hi, d, nil)),
+						sItems("op", []string{"Reshape"}, rankItems(0, hi-1, d, map[string]int64{"maxrank2": 3})),
+						sItems("op", []string{"UnSqueeze"}, rankItems(0, hi-1, d, nil)),
+						sItems("op", []string{"Squeeze", "Flatten"}, rankItems(1, hi, d, nil)))
+				}},
+			{Name: "C02_slice", Pkg: "zzh", Func: "H_C02_slice", Reach: []string{"done"},
+				What:  "Slice with explicit / omitted / {0,0} ranges: gradient is the upstream scattered into zeros",
+				Items: shapeTier(0, 2, 3, 0, 3, 3, 0, nil)},
+			{Name: "C02_patch", Pkg: "zzh", Func: "H_C02_patch", Reach: []string{"done"},
+				What:  "Patch with partial indexes: target gets upstream with the block zeroed, source gets the block",
+				Items: shapeTier(0, 2, 3, 0, 3, 2, 0, nil)},
+			{Name: "C02_concat", Pkg: "zzh", Func: "H_C02_concat", Reach: []string{"done"},
+				What: "Concat of 2..3 operands: each operand receives its slice of the upstream",
+				Items: func(tier string) []Item {
+					if tier == "thorough" {
+						return mergeItems(withP(rankItems(1, 3, 2, nil), map[string]int64{"operands": 2}), withP(rankItems(1, 2, 2, nil), map[string]int64{"operands": 3}))
+					}
+					return mergeItems(withP(rankItems(1, 2, 2, nil), map[string]int64{"operands": 2}), withP(rankItems(1, 1, 2, nil), map[string]int64{"operands": 3}))
+				}},
+			{Name: "C02_reduce", Pkg: "zzh", Func: "H_C02_reduce", Reach: []string{"done"},
+				What:  "Sum/Max/Min/Avg/Mean/Var/Std Along every dim (extrema: fibre elements pairwise apart by > 1e-200; Std: variance > 0)",
+				Items: tiered(func() []Item { return sItems("op", redOps, rankItems(1, 2, 2, nil)) }, func() []Item { return sItems("op", redOps, mergeItems(rankItems(1, 3, 3, nil), rankItems(4, 4, 2, nil))) })},
+			{Name: "C02_dot", Pkg: "zzh", Func: "H_C02_dot", Reach: []string{"done"},
+				What:  "Dot on equal shapes (no expansion), ranks 1..",
+				Items: shapeTier(1, 2, 2, 1, 3, 3, 2, nil)},
+			{Name: "C02_matmul", Pkg: "zzh", Func: "H_C02_matmul", Reach: []string{"done"},
+				What:  "MatMul with equal batch shapes: dA = G.B^T, dB = A^T.G",
+				Items: shapeTier(2, 3, 2, 2, 3, 3, 2, nil)},
+		},
+		Assumptions: []string{numericModel,
+			"operands are assumed inside the differentiability domain: Log x>0, Div b!=0, Tan cos x!=0, extrema and ElMax/ElMin operands apart by > 1e-200, Std variance>0, Pow with symbolic exponent base>0, exponents -1,-2 base!=0, exponent 1/2 base>0",
+			"finite = defined in the real model (no division by zero / 0^negative / log of non-positive on the path)"},
+		Outside: "rank 5 (rank 4 only with sizes <= 2), sizes above 3, Pow exponents other than the listed ones when the base may be <= 0",
+	})
+}
